@@ -191,6 +191,7 @@ Proof.
   - rewrite !orb_true_iff. intros [H|H]; [left; by apply Hp|right; apply Hs; [left; left|done] ].
   - apply Hs. right; left.
 Qed.
+Definition awaits (s : state) (c f : nat) : Prop := exists st, stacks s !! c = Some st /\ (FAwRet f ∈ st \/ FPark f ∈ st).
 Lemma twf_update s s' a old new :
   stacks s !! a = Some old -> stacks s' = <[a := new]> (stacks s) ->
   twf s' a None new = true ->
@@ -205,3 +206,13 @@ Proof.
 Qed.
 Lemma cell_same (s s' : state) c f : s'.(futs) = s.(futs) -> cell s c f -> cell s' c f.
 Proof. intros H. unfold cell. by rewrite (getf_futs s' s f H). Qed.
+Lemma twf_app_chain s c p p0 pre r : forallb chain pre = true -> (forall f, inprog_for p0 f = false) ->
+  twf s c p0 r = true -> twf s c p (pre ++ r) = true.
+Proof.
+  revert p; induction pre as [|y pre IH]; intros p Hc Hp H; cbn [app].
+  - eapply (twf_change s s c p0 p); [intros f Hf; by rewrite Hp in Hf|done|done].
+  - cbn in Hc. apply andb_true_iff in Hc as [Hy Hc]. destruct y; try done; cbn [twf]; by apply IH.
+Qed.
+Lemma tw_same s s' c f : toks s' = toks s -> s'.(futs) = s.(futs) ->
+  np (is_unpark c) s' = np (is_unpark c) s -> np (is_wake (WTask c)) s' = np (is_wake (WTask c)) s -> tw s' c f = tw s c f.
+Proof. intros H1 H2 H3 H4. unfold tw. by rewrite (tokb_toks s s' c H1), H3, H4, (getf_futs s' s f H2). Qed.
